@@ -49,3 +49,65 @@ func (x *Exec) setErrText(n *node, e IfaceV, s SliceV) {
 		x.objSet(st, c.k, e.Val, c.t)
 	}
 }
+
+func init() {
+	lock := func(what string) externFn {
+		return func(x *Exec, fc *funcCtx, n *node, callee *ssa.Function, args []Value, rty types.Type, pos token.Pos) Value {
+			x.lockOp(n, args[0], pos, what)
+			return TupleV{}
+		}
+	}
+	regExtern("(*sync.Mutex).Lock", "acquires the mutex: guarded components are havocked and the declared lock invariant is assumed", lock("Lock"))
+	regExtern("(*sync.Mutex).Unlock", "releases the mutex: the declared lock invariant must hold (obligation)", lock("Unlock"))
+	regExtern("(*sync.RWMutex).Lock", "as Mutex.Lock", lock("Lock"))
+	regExtern("(*sync.RWMutex).Unlock", "as Mutex.Unlock", lock("Unlock"))
+	regExtern("(*sync.RWMutex).RLock", "treated as Lock (sound over-approximation)", lock("Lock"))
+	regExtern("(*sync.RWMutex).RUnlock", "treated as Unlock", lock("Unlock"))
+	regExtern("(*sync.Once).Do", "runs the function iff this Once has not fired (ghost Once.done of the owning object), then marks it fired", func(x *Exec, fc *funcCtx, n *node, callee *ssa.Function, args []Value, rty types.Type, pos token.Pos) Value {
+		_, _, obj, ok := x.mutexOf(args[0])
+		cv, isC := args[1].(ClosureV)
+		if !ok || !isC {
+			x.VC.Warnf("once.Do with unsupported receiver/function in %s", x.TopName)
+			return TupleV{}
+		}
+		done := x.VC.Def("once.done", x.objGet(n.st, "Once.done", BoolS, obj))
+		before := n.st.Clone()
+		saveGuard := n.guard
+		n.guard = x.VC.Def("g.once", And(saveGuard, Not(done)))
+		n.st.G = n.guard
+		x.callStatic(fc, n, cv.Fn, nil, cv.Bindings, types.NewTuple(), pos)
+		x.objSet(n.st, "Once.done", obj, True)
+		n.guard = saveGuard
+		n.st.G = saveGuard
+		merged := x.mergeStates(Not(done), n.st, before)
+		*n.st = *merged
+		return TupleV{}
+	})
+	regExtern("time.Now", "returns an arbitrary time (nanoseconds as 64-bit value)", func(x *Exec, fc *funcCtx, n *node, callee *ssa.Function, args []Value, rty types.Type, pos token.Pos) Value {
+		return x.freshValue(rty, "now", n.guard, n.st)
+	})
+	regExtern("(time.Time).Add", "t + d on the nanosecond value (wrap-around ignored: times are far from the 64-bit limits)", func(x *Exec, fc *funcCtx, n *node, callee *ssa.Function, args []Value, rty types.Type, pos token.Pos) Value {
+		a, ok1 := args[0].(Scalar)
+		b, ok2 := args[1].(Scalar)
+		if ok1 && ok2 {
+			return Scalar{T: x.VC.Def("time.add", BVBin("bvadd", a.T, b.T)), Ty: rty}
+		}
+		return x.freshValue(rty, "time", n.guard, n.st)
+	})
+	regExtern("(time.Time).Before", "signed comparison of the nanosecond values", func(x *Exec, fc *funcCtx, n *node, callee *ssa.Function, args []Value, rty types.Type, pos token.Pos) Value {
+		a, ok1 := args[0].(Scalar)
+		b, ok2 := args[1].(Scalar)
+		if ok1 && ok2 {
+			return Scalar{T: x.VC.Def("time.before", BVCmp("bvslt", a.T, b.T)), Ty: tyBool}
+		}
+		return x.freshValue(rty, "before", n.guard, n.st)
+	})
+	regExtern("(time.Time).Sub", "difference of the nanosecond values", func(x *Exec, fc *funcCtx, n *node, callee *ssa.Function, args []Value, rty types.Type, pos token.Pos) Value {
+		a, ok1 := args[0].(Scalar)
+		b, ok2 := args[1].(Scalar)
+		if ok1 && ok2 {
+			return Scalar{T: x.VC.Def("time.sub", BVBin("bvsub", a.T, b.T)), Ty: rty}
+		}
+		return x.freshValue(rty, "sub", n.guard, n.st)
+	})
+}
